@@ -131,6 +131,13 @@ def main():
     strlist("displaySuffixes", B, r"DISPLAY_SUFFIXES\s*:\s*&\[&str\]\s*=\s*&\[(.*?)\]", ["KiB", "MiB", "GiB", "TiB", "PiB", "EiB"], doc="display suffixes")
     nat("displayStep", B, r"while\s+value\s*>=\s*(\d+)\.0", 1024, doc="display division step")
 
+    # ---- C06 walker
+    src = read(repo, "src/walker.rs")
+    m = re.search(r"const\s+JUNK\s*:\s*&\[&str\]\s*=\s*&\[(.*?)\]", src, flags=re.S)
+    junk = re.findall(r'"((?:[^"\\]|\\.)*)"', m.group(1)) if m else ["Thumbs.db", "Desktop.ini"]
+    (status["extracted"] if m else status["fallback"]).append("junkNames")
+    defs.append("/-- junk file names (as bytes): `src/walker.rs` -/\ndef junkNames : List (List UInt8) := [" + ", ".join("[" + ", ".join(str(b) for b in j.encode()) + "]" for j in junk) + "]")
+
     body = "/-! GENERATED by tools/gen_consts.py from /repo sources on every check run. Do not edit. -/\nnamespace Imdlv.Consts\n\n" + "\n\n".join(defs) + "\n\nend Imdlv.Consts\n"
     old = None
     try:
